@@ -355,10 +355,15 @@ class IntervalTier(textgrid_tier.TextgridTier):
                 if interval.end <= start:
                     newEntryList.append(interval)
                 elif interval.start >= end:
+                    # An interval that begins exactly where the erased region
+                    # ends must begin exactly where the region began; no
+                    # shifted interval may start before it (rounding)
+                    if interval.start == end:
+                        newStart = start
+                    else:
+                        newStart = max(start, interval.start - diff)
                     newEntryList.append(
-                        Interval(
-                            interval.start - diff, interval.end - diff, interval.label
-                        )
+                        Interval(newStart, interval.end - diff, interval.label)
                     )
 
             # Special case: an interval that spanned the deleted
